@@ -43,6 +43,7 @@ class State:
         self.stack = []      # environments of the callers (innermost last)
         self.cells = {}      # src -> [PCell]
         self.lookup = {}     # ('reg', p) -> 'open' | 'hit' | 'miss'   (is the spelling a key of the table?)
+        self.heap = {}       # object id -> {attribute: value} of instances that may still change
         self.facts = frozenset()
         self.imprecise = False
         self.dead = False
@@ -56,6 +57,7 @@ class State:
         s.stack = list(self.stack)
         s.cells = {k: [c.copy() for c in v] for k, v in self.cells.items()}
         s.lookup = dict(self.lookup)
+        s.heap = {k: dict(v) for k, v in self.heap.items()}
         s.facts = self.facts
         s.imprecise = self.imprecise
         s.dead = self.dead
@@ -64,6 +66,7 @@ class State:
 
     def become(self, other):
         self.env, self.stack, self.cells, self.lookup = other.env, other.stack, other.cells, other.lookup
+        self.heap = other.heap
         self.facts, self.imprecise, self.dead = other.facts, other.imprecise, other.dead
         self.forks = other.forks
 
@@ -273,6 +276,13 @@ class Joiner:
             if isinstance(vb, Param) and isinstance(va, View) and va.src == ('imm', vb.name):
                 vb = View(va.src)
             out.env[k] = self.join_value(va, vb, a, b)
+        # instances
+        for oid in set(a.heap) | set(b.heap):
+            ha, hb = a.heap.get(oid), b.heap.get(oid)
+            if ha is None or hb is None:
+                out.heap[oid] = dict(ha if hb is None else hb)
+                continue
+            out.heap[oid] = {k: self.join_value(ha.get(k, TOP), hb.get(k, TOP), a, b) for k in set(ha) | set(hb)}
         # lookups
         for src in set(a.lookup) | set(b.lookup):
             la, lb = a.lookup.get(src), b.lookup.get(src)
